@@ -597,13 +597,15 @@ func CheckDuplicateProofs(proofs Proofs) bool {
 }
 
 func CheckDuplicateBlindedMessages(bms BlindedMessages) bool {
-	bmMap := make(map[BlindedMessage]bool)
+	// a blinded message is identified by its B_: the same B_ with
+	// another amount or keyset id is a duplicate as well
+	bmMap := make(map[string]bool)
 
 	for _, bm := range bms {
-		if bmMap[bm] {
+		if bmMap[bm.B_] {
 			return true
 		} else {
-			bmMap[bm] = true
+			bmMap[bm.B_] = true
 		}
 	}
 
